@@ -764,3 +764,134 @@ GENERATORS = {"RegLayouts": gen_RegLayouts, "RegDetails": gen_RegDetails}
 
 GENERATORS["PfrRules"] = gen_PfrRules
 
+
+
+# ------------------------------------------------------------------------------------------------ scalar decoding rule of _load_yml_config
+def _scalar_steps(stmts, var):
+    """the statements that compute `val` from the configuration value `var` as a list of steps (condition, parser, try_next):
+    conditions: 'always' | 'hexStr' (register.config_as_hexstring and isinstance(var, str)) | 'hexReg' (register.config_as_hexstring);
+    parsers: 'hex16' (int(var, 16)) | 'valueToInt' (value_to_int(var)).  Anything else -> None (the theorem then fails, never a default)."""
+    def const_int(node):
+        try:
+            from consteval import ModuleEnv  # noqa: F401  (constants by value when the source names them)
+        except Exception:  # noqa: BLE001
+            pass
+        try:
+            return ast.literal_eval(node)
+        except (ValueError, SyntaxError):
+            return None
+
+    def is_var(node):
+        return isinstance(node, ast.Name) and node.id == var
+
+    def parser(node):
+        if isinstance(node, ast.Call) and isinstance(node.func, ast.Name) and not node.keywords:
+            if node.func.id == "int" and len(node.args) == 2 and is_var(node.args[0]) and const_int(node.args[1]) == 16:
+                return "hex16"
+            if node.func.id == "value_to_int" and len(node.args) == 1 and is_var(node.args[0]):
+                return "valueToInt"
+        if isinstance(node, ast.Call) and isinstance(node.func, ast.Name) and node.func.id == "int" and len(node.args) == 1 and is_var(node.args[0]) \
+                and len(node.keywords) == 1 and node.keywords[0].arg == "base" and const_int(node.keywords[0].value) == 16:
+            return "hex16"
+        return None
+
+    def is_hexflag(node):
+        return isinstance(node, ast.Attribute) and node.attr == "config_as_hexstring" and isinstance(node.value, ast.Name) and node.value.id == "register"
+
+    def is_isstr(node):
+        return (isinstance(node, ast.Call) and isinstance(node.func, ast.Name) and node.func.id == "isinstance" and len(node.args) == 2
+                and is_var(node.args[0]) and isinstance(node.args[1], ast.Name) and node.args[1].id == "str")
+
+    def cond(node):
+        if is_hexflag(node):
+            return "hexReg"
+        if isinstance(node, ast.BoolOp) and isinstance(node.op, ast.And) and len(node.values) == 2:
+            a, b = node.values
+            if (is_hexflag(a) and is_isstr(b)) or (is_hexflag(b) and is_isstr(a)):
+                return "hexStr"
+        return None
+
+    def value_steps(node):
+        if isinstance(node, ast.IfExp):
+            c, p, rest = cond(node.test), parser(node.body), value_steps(node.orelse)
+            if c is None or p is None or rest is None:
+                return None
+            return [(c, p, False)] + rest
+        p = parser(node)
+        return None if p is None else [("always", p, False)]
+
+    def assigned(st):
+        if isinstance(st, ast.Assign) and len(st.targets) == 1 and isinstance(st.targets[0], ast.Name) and st.targets[0].id == "val":
+            return st.value
+        return None
+
+    for st in stmts:
+        v = assigned(st)
+        if v is not None:
+            return value_steps(v)
+        if isinstance(st, ast.If) and any(assigned(x) is not None for x in st.body):   # if cond: val = A  else: val = B
+            c = cond(st.test)
+            a = next((assigned(x) for x in st.body if assigned(x) is not None), None)
+            b = next((assigned(x) for x in st.orelse if assigned(x) is not None), None)
+            pa, rest = parser(a) if a is not None else None, value_steps(b) if b is not None else None
+            if c is None or pa is None or rest is None:
+                return None
+            return [(c, pa, False)] + rest
+        if isinstance(st, ast.Try) and any(assigned(x) is not None for x in st.body):
+            first = value_steps(next(assigned(x) for x in st.body if assigned(x) is not None))
+            if first is None or len(first) != 1 or len(st.handlers) != 1:
+                return None
+            hb = st.handlers[0].body
+            guard = "always"
+            rest = None
+            for x in hb:
+                if isinstance(x, ast.If) and isinstance(x.test, ast.UnaryOp) and isinstance(x.test.op, ast.Not) and is_hexflag(x.test.operand) \
+                        and len(x.body) == 1 and isinstance(x.body[0], ast.Raise):
+                    guard = "hexReg"
+                elif assigned(x) is not None:
+                    rest = value_steps(assigned(x))
+                elif isinstance(x, (ast.Expr, ast.Pass)):
+                    continue
+                else:
+                    return None
+            if rest is None or len(rest) != 1:
+                return None
+            return [(first[0][0], first[0][1], True), (guard if rest[0][0] == "always" else rest[0][0], rest[0][1], False)]
+    return None
+
+
+def gen_ScalarRule():
+    """how `_RegistersBase._load_yml_config` turns a scalar configuration value into the number handed to `set_value`: which parser
+    under which condition, in which order - for the plain scalar (`reg_value`) and for `{"value": raw_val}`"""
+    rules = {"scalarRule": None, "dictValueRule": None}
+    try:
+        tree = parse("spsdk/utils/registers.py")
+        fn = next(n for n in ast.walk(tree) if isinstance(n, ast.FunctionDef) and n.name == "_load_yml_config")
+        for node in ast.walk(fn):
+            if isinstance(node, ast.If):
+                t = node.test
+                # elif isinstance(reg_value, (int, str)):
+                if (isinstance(t, ast.Call) and isinstance(t.func, ast.Name) and t.func.id == "isinstance" and len(t.args) == 2
+                        and isinstance(t.args[0], ast.Name) and t.args[0].id == "reg_value" and isinstance(t.args[1], ast.Tuple)
+                        and sorted(getattr(e, "id", "?") for e in t.args[1].elts) == ["int", "str"]):
+                    rules["scalarRule"] = _scalar_steps(node.body, "reg_value")
+                # if "value" in reg_value.keys():
+                if (isinstance(t, ast.Compare) and isinstance(t.left, ast.Constant) and t.left.value == "value" and len(t.ops) == 1
+                        and isinstance(t.ops[0], ast.In)):
+                    rules["dictValueRule"] = _scalar_steps(node.body, "raw_val")
+    except (StopIteration, OSError, SyntaxError):
+        pass
+    out = ["import SpsdkVerif.Model.ConfigArea", "", "namespace SpsdkVerif.Generated.ScalarRule", "open SpsdkVerif.CfgArea", ""]
+    for name, steps in rules.items():
+        out.append(f"/-- `_load_yml_config`: decoding of {'a plain scalar register value' if name == 'scalarRule' else 'the value of a {value: x} entry'} -/")
+        if steps is None:
+            out.append(f"def {name} : Option ScalarRule := none   -- not translatable")
+        else:
+            txt = ", ".join(f"⟨.{c}, .{p}, {'true' if t else 'false'}⟩" for c, p, t in steps)
+            out.append(f"def {name} : Option ScalarRule := some [{txt}]")
+        out.append("")
+    out.append("end SpsdkVerif.Generated.ScalarRule")
+    emit("ScalarRule", "\n".join(out) + "\n", {"rules": {k: (None if v is None else [list(s) for s in v]) for k, v in rules.items()}})
+
+
+GENERATORS["ScalarRule"] = gen_ScalarRule
